@@ -82,13 +82,14 @@ func (o *OutputPrinter) Run(execCtx ExecutionContext) error {
 
 	onlyZeroEventTimesSeen := true
 
-	printTable := func() {
+	printTable := func(final bool) error {
 		lastUpdate = time.Now()
 		var buf bytes.Buffer
 
 		format := o.format(&buf)
 		format.SetSchema(o.schema)
 
+		var outErr error
 		i := int64(0)
 		recordCounts.Ascend(func(item btree.Item) bool {
 			itemTyped := item.(*outputItem)
@@ -98,19 +99,32 @@ func (o *OutputPrinter) Run(execCtx ExecutionContext) error {
 				}
 				i++
 
-				format.Write(itemTyped.Values)
+				if err := format.Write(itemTyped.Values); err != nil {
+					outErr = fmt.Errorf("couldn't write record: %w", err)
+					return false
+				}
 			}
 			return true
 		})
+		if outErr != nil {
+			return outErr
+		}
 
-		format.Close()
+		if err := format.Close(); err != nil {
+			return fmt.Errorf("couldn't close formatter: %w", err)
+		}
 
-		if !watermark.IsZero() {
+		if !final && !watermark.IsZero() {
 			fmt.Fprintf(&buf, "watermark: %s\n", watermark.Format(time.RFC3339Nano))
 		}
 
-		buf.WriteTo(liveWriter)
-		liveWriter.Flush()
+		if _, err := buf.WriteTo(liveWriter); err != nil {
+			return fmt.Errorf("couldn't write table: %w", err)
+		}
+		if err := liveWriter.Flush(); err != nil {
+			return fmt.Errorf("couldn't write table: %w", err)
+		}
+		return nil
 	}
 
 	if err := o.source.Run(
@@ -163,7 +177,9 @@ func (o *OutputPrinter) Run(execCtx ExecutionContext) error {
 				recordCounts.DeleteMax()
 			}
 			if o.live && onlyZeroEventTimesSeen && time.Since(lastUpdate) > time.Second/4 && !record.Retraction /*This last bit just makes the output less jittery*/ {
-				printTable()
+				if err := printTable(false); err != nil {
+					return err
+				}
 			}
 			return nil
 		},
@@ -172,7 +188,9 @@ func (o *OutputPrinter) Run(execCtx ExecutionContext) error {
 
 			// Print table
 			if o.live && time.Since(lastUpdate) > time.Second/4 {
-				printTable()
+				if err := printTable(false); err != nil {
+					return err
+				}
 			}
 			return nil
 		},
@@ -180,25 +198,5 @@ func (o *OutputPrinter) Run(execCtx ExecutionContext) error {
 		return err
 	}
 
-	var buf bytes.Buffer
-	format := o.format(&buf)
-	format.SetSchema(o.schema)
-	i := int64(0)
-	recordCounts.Ascend(func(item btree.Item) bool {
-		itemTyped := item.(*outputItem)
-		for j := 0; j < itemTyped.Count; j++ {
-			if o.limit != nil && i == *o.limit {
-				return false
-			}
-			i++
-
-			format.Write(itemTyped.Values)
-		}
-		return true
-	})
-	format.Close()
-	buf.WriteTo(liveWriter)
-	liveWriter.Flush()
-
-	return nil
+	return printTable(true)
 }
